@@ -13,3 +13,23 @@ package chars
 //@ func IsIdentifierSafe
 //@   trusted
 //@   ensures result == chars.IdentSafe(str)
+
+// ---------------------------------------------------------------------------------------------
+// UTF-8 structure (C11). RuneLen(b): length of the character a byte starts (0: not a start byte).
+//@ spec chars.RuneLen(b byte) int = ite(b < 0x80, 1, ite(b < 0xc0, 0, ite(b < 0xe0, 2, ite(b < 0xf0, 3, ite(b < 0xf8, 4, 0)))))
+// (trusted: a lookup in the generated 32-entry table runeByteCounts indexed by the top five bits;
+// the package initialiser with its 23k lines of tables is not executed symbolically)
+//@ func CalculateRuneByteCount
+//@   trusted
+//@   ensures result == chars.RuneLen(startByte)
+
+// Position of the last start byte and whether the character it starts is complete at the end of
+// data; (0, true) for empty data, (0, false) when there is no start byte at all.
+//@ func IndexOfLastRuneStart
+//@   ensures len(data) == 0 ==> index == 0 && isCompleteRune
+//@   ensures len(data) > 0 ==> 0 <= index && index < len(data)
+//@   ensures forall j int :: index < j && j < len(data) ==> chars.RuneLen(data[j]) == 0
+//@   ensures len(data) > 0 && chars.RuneLen(data[index]) > 0 ==> isCompleteRune == (index + chars.RuneLen(data[index]) == len(data))
+//@   ensures len(data) > 0 && chars.RuneLen(data[index]) == 0 ==> index == 0 && !isCompleteRune && (forall j int :: 0 <= j && j < len(data) ==> chars.RuneLen(data[j]) == 0)
+//@   loop 0 invariant 0 - 1 <= index && index < len(data) && dataLength == len(data) && (forall j int :: index < j && j < len(data) ==> chars.RuneLen(data[j]) == 0)
+//@   loop 0 decreases index + 1
